@@ -1,7 +1,7 @@
 (* C02 — the reader pump: what is delivered is exactly the run of frames that decode before
    the first error, that error closes the connection, nothing behind it is interpreted. *)
 From Coq Require Import Arith ZArith NArith List Bool Lia ZifyNat ZifyN ZifyBool.
-From FV Require Import Generated.Consts Lib.NList Lib.BE Lib.Crc32 C02.Model C01.ProofsIO C01.Proofs C02.Proofs.
+From FV Require Import Generated.Consts Lib.NList Lib.BE Lib.Crc32 C02.Model C01.ProofsIO C01.ProofsV1 C01.ProofsV2 C01.Proofs C02.Proofs C02.ProofsCrc.
 Import ListNotations.
 Open Scope N_scope.
 
@@ -118,4 +118,87 @@ Proof.
   destruct S as [S1 S2]. split; [exact S1|].
   destruct e as [err| |]; [exists err; split; [reflexivity|exact S2]| |contradiction].
   exfalso. revert S2. apply total_v2.
+Qed.
+
+(* ---------------------------------------------------------------------------------- *)
+(* whole streams: good frames, then a damaged one, then anything *)
+
+(* [f] decodes to [q] wherever it stands in a stream, the reader ending exactly behind it *)
+Definition decodes_as (read : stream -> rhb packet) (f : bytes) (q : packet) : Prop :=
+  forall s rest, concat s = f ++ rest ->
+  r_out (read s) = Ok q /\ concat (r_rest (read s)) = rest.
+
+Lemma pump_good_then_bad (read : stream -> rhb packet) frames qs :
+  Forall2 (decodes_as read) frames qs ->
+  forall fuel s tail err,
+  concat s = concat frames ++ tail ->
+  (forall s', concat s' = tail -> r_out (read s') = Err err) ->
+  (length frames < fuel)%nat ->
+  fst (fst (read_pump read fuel s)) = qs /\ snd (fst (read_pump read fuel s)) = Closed err.
+Proof.
+  induction 1 as [|f q fs qs Hf _ IH]; intros fuel s tail err Hs Hbad Hfuel.
+  - destruct fuel as [|fuel]; [cbn in Hfuel; lia|]. cbn [read_pump concat app] in *.
+    rewrite (Hbad s Hs). split; reflexivity.
+  - destruct fuel as [|fuel]; [cbn in Hfuel; lia|]. cbn [read_pump concat length] in *.
+    rewrite <- app_assoc in Hs. destruct (Hf s _ Hs) as [O R]. rewrite O.
+    specialize (IH fuel (r_rest (read s)) tail err R Hbad ltac:(lia)).
+    destruct (read_pump read fuel (r_rest (read s))) as [[ds e] rest]. cbn [fst snd] in *.
+    destruct IH as [-> ->]. split; reflexivity.
+Qed.
+
+(* the connection-level form of the checksum sentence: frames that decode, then an accepted
+   frame with one bit flipped (outside its length field), then any bytes: the reader delivers
+   exactly the packets before the damage and closes the connection with a checksum error; the
+   damaged frame and everything behind it is never delivered *)
+Lemma stream_flip_v1 dec unzip hd frames qs frame p0 i fuel s tail :
+  Forall2 (decodes_as (fun s => read_packet_v1 dec unzip hd s packet0)) frames qs ->
+  wf_bytes frame -> accepted (read_packet_v1 dec unzip hd [frame] p0) ->
+  16 <= i -> i < 8 * lenN frame ->
+  concat s = concat frames ++ flip_bit i frame ++ tail ->
+  (length frames < fuel)%nat ->
+  pump_v1 dec unzip hd fuel s = (qs, Closed EChecksum, snd (pump_v1 dec unzip hd fuel s)).
+Proof.
+  intros HF W A Hi1 Hi2 Hs Hfuel. unfold pump_v1.
+  destruct (pump_good_then_bad _ frames qs HF fuel s (flip_bit i frame ++ tail) EChecksum Hs) as [E1 E2];
+    [|assumption|].
+  - intros s' Hs'. apply (crc_flip_tail_v1 dec unzip hd frame p0 i s' packet0 tail W A Hi1 Hi2 Hs').
+  - destruct (read_pump _ fuel s) as [[ds e] rest]. cbn [fst snd] in *. subst. reflexivity.
+Qed.
+
+Lemma stream_flip_v2 dec unzip hd frames qs frame p0 i fuel s tail :
+  Forall2 (decodes_as (fun s => read_packet_v2 dec unzip hd s packet0)) frames qs ->
+  wf_bytes frame -> accepted (read_packet_v2 dec unzip hd [frame] p0) ->
+  24 <= i -> i < 8 * lenN frame ->
+  concat s = concat frames ++ flip_bit i frame ++ tail ->
+  (length frames < fuel)%nat ->
+  pump_v2 dec unzip hd fuel s = (qs, Closed EChecksum, snd (pump_v2 dec unzip hd fuel s)).
+Proof.
+  intros HF W A Hi1 Hi2 Hs Hfuel. unfold pump_v2.
+  destruct (pump_good_then_bad _ frames qs HF fuel s (flip_bit i frame ++ tail) EChecksum Hs) as [E1 E2];
+    [|assumption|].
+  - intros s' Hs'. apply (crc_flip_tail_v2 dec unzip hd frame p0 i s' packet0 tail W A Hi1 Hi2 Hs').
+  - destruct (read_pump _ fuel s) as [[ds e] rest]. cbn [fst snd] in *. subst. reflexivity.
+Qed.
+
+(* what the encoder writes for a sendable packet is such a frame (C01 round trip) *)
+Lemma written_decodes_as_v1 enc dec zip unzip : codec_env enc dec zip unzip ->
+  forall thr has_c hd p n ws p', (has_c = true -> hd = true) ->
+  wf_packet p -> clean_flags p ->
+  write_v1 enc zip thr has_c p = mkWres (Some n) ws p' ->
+  decodes_as (fun s => read_packet_v1 dec unzip hd s packet0) (concat ws) (decoded_v1 p packet0).
+Proof.
+  intros [E1 E2 E3 E4] thr has_c hd p n ws p' Himp W Hc Hw s rest Hs.
+  destruct (roundtrip_v1 enc dec zip unzip E1 E2 E3 E4 thr has_c hd p n ws p' s rest packet0 Himp W Hc Hw Hs)
+    as (R1 & R2 & _). split; assumption.
+Qed.
+
+Lemma written_decodes_as_v2 enc dec zip unzip : codec_env enc dec zip unzip ->
+  forall thr has_c hd p n ws p', (has_c = true -> hd = true) ->
+  wf_packet p -> clean_flags p ->
+  write_v2 enc zip thr has_c p = mkWres (Some n) ws p' ->
+  decodes_as (fun s => read_packet_v2 dec unzip hd s packet0) (concat ws) (decoded_v2 p packet0).
+Proof.
+  intros [E1 E2 E3 E4] thr has_c hd p n ws p' Himp W Hc Hw s rest Hs.
+  destruct (roundtrip_v2 enc dec zip unzip E1 E2 E3 E4 thr has_c hd p n ws p' s rest packet0 Himp W Hc Hw Hs)
+    as (R1 & R2 & _). split; assumption.
 Qed.
